@@ -45,6 +45,7 @@ class Sched:
         self.threads.append(self.main)
         self.deadlock = False
         self.killing = False
+        self.fixed = False  # True: deterministic schedule (first runnable thread) instead of explorer choices
         self.trace = []
         self.main_ident = threading.get_ident()
 
@@ -82,7 +83,7 @@ class Sched:
                 if self.killing:
                     raise _Kill()
                 continue
-            k = self.env.choose(len(run))
+            k = 0 if self.fixed else self.env.choose(len(run))
             nxt = run[k]
             self.trace.append(nxt.name)
             if nxt is me:
@@ -165,7 +166,7 @@ class MProcess:
             self.s.deadlock = True
             self.s.main.sem.release()
             return
-        k = self.s.env.choose(len(run))
+        k = 0 if self.s.fixed else self.s.env.choose(len(run))
         self.s.trace.append(run[k].name)
         run[k].sem.release()
 
@@ -188,7 +189,8 @@ def make_mp(sched):
 
 def make_task(fail_at):
     def task(i, arg, *, equilibrium, psi, f_R, f_Z, **kw):
-        if i == fail_at:  # fail_at is a symbolic integer: the solver decides which task (if any) fails on this path
+        # fail_at is a symbolic integer: the solver decides which task (if any) fails on this path; only the first map call fails
+        if kw.get("extra") == "call0" and i == fail_at:
             raise RuntimeError("task %d failed" % i)
         return ("F", i, arg, kw.get("extra"))
     return task
@@ -200,7 +202,7 @@ class _Eq:
     f_Z = "f_Z"
 
 
-def _mk(nworkers, ntasks, ncalls=1, may_fail=True):
+def _mk(nworkers, ntasks, ncalls=1, may_fail=True, fix_later_calls=False):
     def body(env):
         # position of the failing task: -1 = none.  Symbolic; resolved by the solver where the task code compares with it.
         fail_at = env.int("fail_at", lo=-1, hi=ntasks - 1) if may_fail else -1
@@ -209,40 +211,42 @@ def _mk(nworkers, ntasks, ncalls=1, may_fail=True):
         dill = types.SimpleNamespace(dumps=lambda x: x, loads=lambda x: x)
         task = make_task(fail_at)
         args = [(i, "a%d" % i) for i in range(ntasks)]
-        # serial reference (np == 1 path of the same class)
+        # serial reference (np == 1 path of the same class), one entry per call
         serial = pm.ParallelMap(1, equilibrium=_Eq())
-        try:
-            expected = serial(task, args, extra="k")
-            serial_exc = None
-        except RuntimeError as e:
-            expected, serial_exc = None, e
+        expected = []
+        for call in range(ncalls):
+            try:
+                expected.append(("returned", serial(task, args, extra="call%d" % call)))
+            except RuntimeError as e:
+                expected.append(("raised", repr(e)))
+        outcomes = []
         with patched((pm, "multiprocessing", mp), (pm, "dill", dill)):
             P = pm.ParallelMap(nworkers, equilibrium=_Eq())
             try:
-                outcome = None
                 for call in range(ncalls):
+                    if call > 0 and fix_later_calls:
+                        sched.fixed = True
                     try:
-                        got = P(task, args, extra="k")
-                        outcome = ("returned", got)
+                        outcomes.append(("returned", P(task, args, extra="call%d" % call)))
                     except Deadlock as e:
-                        outcome = ("deadlock", str(e))
+                        outcomes.append(("deadlock", str(e)))
                         break
                     except Exception as e:  # noqa
-                        outcome = ("raised", repr(e))
-                        if serial_exc is None:
-                            break
+                        outcomes.append(("raised", repr(e)))
             finally:
                 sched.shutdown()
                 P.workers = None  # __del__ must not touch the model afterwards
-        env.tag(outcome[0] + ("/serial_raises" if serial_exc is not None else "/serial_returns"))
-        env.claim("never_blocks_forever", outcome[0] != "deadlock")
-        if serial_exc is None:
-            env.claim("no_spurious_error", outcome[0] != "raised")
-            env.claim("results_equal_serial_in_order", outcome[0] != "returned" or outcome[1] == expected)
-        else:
-            env.claim("failing_task_raises_in_caller", outcome[0] != "returned")
-            env.claim("raises_same_error_as_serial", outcome[0] != "raised" or outcome[1] == repr(serial_exc))
-        return outcome, sched.trace[:40]
+        env.tag("/".join("%s(serial %s)" % (o[0], x[0]) for o, x in zip(outcomes, expected)))
+        for call, (o, x) in enumerate(zip(outcomes, expected)):
+            c = "" if ncalls == 1 else "call%d:" % call
+            env.claim(c + "never_blocks_forever", o[0] != "deadlock")
+            if x[0] == "returned":
+                env.claim(c + "no_spurious_error", o[0] != "raised")
+                env.claim(c + "results_equal_serial_in_order", o[0] != "returned" or o[1] == x[1])
+            else:
+                env.claim(c + "failing_task_raises_in_caller", o[0] != "returned")
+                env.claim(c + "raises_same_error_as_serial", o[0] != "raised" or o[1] == x[1])
+        return outcomes, sched.trace[:40]
     return body
 
 
@@ -315,7 +319,7 @@ def real_replay(nworkers, ntasks):
             hung = True
             subprocess.run("pkill -f harness.c13_tasks", shell=True)
         info = {"real_multiprocessing": txt[-400:], "fail_at": fail_at, "workers": nworkers, "tasks": ntasks}
-        if claim_name == "never_blocks_forever":
+        if claim_name.endswith("never_blocks_forever"):
             return hung, info
         if claim_name == "failing_task_raises_in_caller":
             return ("RETURNED" in txt), info
@@ -336,9 +340,14 @@ for _nw, _nt, _tier in [(2, 1, "quick"), (2, 2, "quick"), (3, 2, "thorough"), (2
 OBLIGATIONS.append(Ob("two_calls_w2_t1", _mk(2, 1, ncalls=2), tier="quick", family="interleavings x failing position",
                       desc="two consecutive map calls on one ParallelMap (leftovers of the first call must not leak into the second)",
                       encodes=ENC, stubs=["multiprocessing -> FIFO/baton model"], bounds="2 workers, 1 task, 2 calls", max_paths=2000000, wall_s=900))
-OBLIGATIONS.append(Ob("two_calls_w2_t2", _mk(2, 2, ncalls=2, may_fail=False), tier="thorough", family="interleavings x failing position",
-                      desc="two consecutive map calls, no failure", encodes=ENC, stubs=["multiprocessing -> FIFO/baton model"],
-                      bounds="2 workers, 2 tasks, 2 calls", max_paths=2000000, wall_s=3400))
+OBLIGATIONS.append(Ob("two_calls_w2_t2_second_call_fixed_schedule", _mk(2, 2, ncalls=2, fix_later_calls=True), tier="quick", family="interleavings x failing position",
+                      desc="two consecutive map calls, first call: all interleavings and failing positions; second call: one deterministic schedule",
+                      encodes=ENC, stubs=["multiprocessing -> FIFO/baton model"],
+                      bounds="2 workers, 2 tasks, 2 calls, failing index in -1..1 (first call only); second call not interleaved exhaustively", max_paths=4000000, wall_s=900))
+OBLIGATIONS.append(Ob("two_calls_w2_t2", _mk(2, 2, ncalls=2), tier="thorough", family="interleavings x failing position",
+                      desc="two consecutive map calls, the first with a failing task at a symbolic position: the second call returns its own serial results",
+                      encodes=ENC, stubs=["multiprocessing -> FIFO/baton model"],
+                      bounds="2 workers, 2 tasks, 2 calls, failing index in -1..1 (first call only)", max_paths=4000000, wall_s=1500))
 for _nt in (2, 3, 4, 5):
     OBLIGATIONS.append(Ob("reassembly_any_arrival_order_t%d" % _nt, _mk_reassembly(_nt), tier="quick" if _nt <= 4 else "thorough",
                           family="reassembly", desc="__call__ stores every result at its own task index for every arrival permutation (symbolic, Distinct)",
